@@ -73,25 +73,31 @@ func (quietPebble) Fatalf(f string, a ...interface{}) {
 
 var quietLog = slog.New(slog.NewTextHandler(io.Discard, nil))
 
-// openStorageHook opens one real storage hook of the named backend on dir (redis: on the miniredis address).
-func openStorageHook(name, dir, redisAddr string) (stHook, error) {
-	var h stHook
-	var cfg any
+// newStorageHook returns an uninitialised real storage hook of the named backend and its configuration for dir
+// (redis: for the miniredis address).
+func newStorageHook(name, dir, redisAddr string) (stHook, any) {
 	switch name {
 	case "badger":
 		o := badgerdb.DefaultOptions(dir + "/badger").WithMemTableSize(1 << 20).WithValueLogFileSize(1 << 20).
 			WithNumMemtables(1).WithNumLevelZeroTables(1).WithNumLevelZeroTablesStall(2).WithValueThreshold(1 << 10).
 			WithBlockCacheSize(1 << 20).WithIndexCacheSize(0).WithNumCompactors(2).WithCompactL0OnClose(false).WithDetectConflicts(false)
-		h, cfg = new(badger.Hook), &badger.Options{Path: dir + "/badger", Options: &o}
+		return new(badger.Hook), &badger.Options{Path: dir + "/badger", Options: &o}
 	case "pebble":
-		h, cfg = new(pebble.Hook), &pebble.Options{Path: dir + "/pebble", Options: &pebbledb.Options{Logger: quietPebble{}}}
+		return new(pebble.Hook), &pebble.Options{Path: dir + "/pebble", Options: &pebbledb.Options{Logger: quietPebble{}}}
 	case "bolt":
 		// NoSync: no fsync per transaction (the harness process never dies mid-sequence; durability against
 		// power loss is outside the model: the engines are trusted per call)
-		h, cfg = new(bolt.Hook), &bolt.Options{Path: dir + "/bolt.db", Options: &bbolt.Options{Timeout: 250 * time.Millisecond, NoSync: true, NoFreelistSync: true}}
+		return new(bolt.Hook), &bolt.Options{Path: dir + "/bolt.db", Options: &bbolt.Options{Timeout: 250 * time.Millisecond, NoSync: true, NoFreelistSync: true}}
 	case "redis":
-		h, cfg = new(redis.Hook), &redis.Options{Address: redisAddr}
-	default:
+		return new(redis.Hook), &redis.Options{Address: redisAddr}
+	}
+	return nil, nil
+}
+
+// openStorageHook opens one real storage hook of the named backend on dir (redis: on the miniredis address).
+func openStorageHook(name, dir, redisAddr string) (stHook, error) {
+	h, cfg := newStorageHook(name, dir, redisAddr)
+	if h == nil {
 		return nil, fmt.Errorf("unknown backend %s", name)
 	}
 	h.SetOpts(quietLog, nil)
